@@ -320,6 +320,9 @@ fn history_from_json(v: &Value) -> Option<History> {
 
 pub fn run(ctx: &Ctx) -> i32 {
     if let Some(v) = &ctx.replay {
+        if crate::checks::soup::is_soup_replay(v) {
+            return crate::checks::soup::replay(ctx, P, v);
+        }
         let case = v.get("case").unwrap_or(v);
         if case.get("kind").and_then(|k| k.as_str()) == Some("history") {
             let Some(h) = history_from_json(case) else { return 2 };
@@ -437,6 +440,9 @@ pub fn run(ctx: &Ctx) -> i32 {
     let rule = "cases = single steps of TRAPA #1-#3 (all 256 CCR), interrupt acceptance for every vector 1-63 (every CCR value with I clear; through request + the run loop's poll), RTE on crafted frames, with vector/frame top bytes arbitrary, SP across RAM and DRAM incl. non-zero upper byte; plus histories of nested {TRAPA, interrupt, RTE, CCR change, vector-table entry rewritten by the MES set_handler call or by a guest store} up to depth 16 executed in lockstep with the reference and against a shadow stack of saved contexts (after entry;RTE registers, CCR and PC must equal the pre-entry context). Oracle = reference post-state (frame bytes, SP, I set, UI masked, PC from the low 24 bits of the vector) and the round trip. Non-trivial = entry with CCR not 0x00/0xff, or a history with nesting depth >= 2.";
     let mut extra = Map::new();
     extra.insert("masked_details".into(), json!(["UI after entry (the property allows it to change)"]));
+    stats.merge(crate::checks::soup::phase_irq(ctx, P, crate::checks::soup::Flavor::All, ctx.tier.pick(200_000, 4_000_000), 0x6510000, false, true));
+    let rule_soup = format!("{}{}", rule, crate::checks::soup::RULE_IRQ);
+    let rule: &str = &rule_soup;
     finish(ctx, P, stats, rule, vec!["reference model transcribed from the H8/300H programming manual (DESIGN Appendix A.5)".into()], extra)
 }
 
